@@ -358,7 +358,7 @@ func c14errors(c *fw.Ctx, idx int, r *rand.Rand) {
 }
 
 func c14builtins(c *fw.Ctx, idx int, r *rand.Rand) {
-	words := []string{"Hello", "wORLD", "", " padded\t", "a,b,c", "<b>&\"'", "Ünï çödé", "aaa", "x=1&y=2 z", "line\nbreak"}
+	words := []string{"Hello", "wORLD", "", " padded\t", "a,b,c", "<b>&\"'", "Ünï çödé", "aaa", "x=1&y=2 z", "line\nbreak", "nul:\x00:end", "bad\xffutf8", "\u2028sep+plus%25"}
 	w := func() string { return words[r.Intn(len(words))] }
 	q := func(s string) string { return fmt.Sprintf("%q", s) }
 	s1, s2, s3 := w(), w(), w()
